@@ -1,12 +1,14 @@
 ---------------------------- MODULE Gen_C19 ----------------------------
 (* Spec -> impl for C19: the universe of inputs is a TLA+ set — every simple digraph on 1..N
    with every ordered source/sink pair (or only s=1, t=2 when AllPairs is FALSE). *)
-EXTENDS Integers, Sequences, FiniteSets, TLC, Json, IOUtils, SequencesExt
-CONSTANTS N, AllPairs
+EXTENDS Integers, Sequences, FiniteSets, FiniteSetsExt, TLC, Json, IOUtils, SequencesExt
+CONSTANTS N, AllPairs, Sparse   \* Sparse > 0: only graphs with at most Sparse edges or at most 3 edges missing
 V == 1..N
 Pairs == {p \in V \X V : p[1] # p[2]}
 ST == IF AllPairs THEN Pairs ELSE {<<1, 2>>}
-Cases == {[edges |-> SetToSeq(E), s |-> st[1], t |-> st[2]] : E \in SUBSET Pairs, st \in ST}
+Graphs == IF Sparse = 0 THEN SUBSET Pairs
+          ELSE UNION {kSubset(k, Pairs) : k \in 0..Sparse} \cup {Pairs \ X : X \in UNION {kSubset(k, Pairs) : k \in 0..3}}
+Cases == {[edges |-> SetToSeq(E), s |-> st[1], t |-> st[2]] : E \in Graphs, st \in ST}
 VARIABLE x
 Init == x = ndJsonSerialize(IOEnv.OUT, SetToSeq(Cases))
 Next == UNCHANGED x
